@@ -128,4 +128,113 @@ theorem pg_substr3 (s : List Char) (raw : Bool) (a b : Int)
   simp only [lenVal, indexVal_pg]
   cases raw <;> simp at hg ⊢ <;> omega
 
+/-- membership of an in-range position in Python's `s[a:b]`, as a linear-arithmetic statement -/
+def inPy (n a b k : Int) : Prop :=
+  ((a < 0 ∧ a + n ≤ k) ∨ (0 ≤ a ∧ a ≤ k)) ∧ ((b < 0 ∧ k < b + n) ∨ (0 ≤ b ∧ k < b))
+
+theorem win_eq_pySlice (s : List Char) (a b x y : Int)
+    (h : ∀ k : Int, 0 ≤ k → k < s.length → ((x ≤ k ∧ k < y) ↔ inPy s.length a b k)) :
+    win s x y = pySlice s (some a) (some b) := by
+  rw [pySlice_eq_win]
+  apply win_congr; intro k hk0 hkn
+  rw [adjIdx_le _ _ _ (by omega) hk0 hkn, lt_adjIdx _ _ _ (by omega) hk0 hkn]
+  exact h k hk0 hkn
+
+theorem win_zero (s : List Char) : win s 0 0 = [] := by simp [win, sliceNat]
+
+theorem nil_eq_pySlice (s : List Char) (a b : Int)
+    (h : ∀ k : Int, 0 ≤ k → k < s.length → ¬ inPy s.length a b k) :
+    [] = pySlice s (some a) (some b) := by
+  rw [← win_zero s]
+  apply win_eq_pySlice; intro k hk0 hkn
+  have := h k hk0 hkn
+  constructor
+  · intro h'; omega
+  · intro h'; exact absurd h' this
+
+/-- membership in `s[a:]` -/
+def inPyFrom (n a k : Int) : Prop := (a < 0 ∧ a + n ≤ k) ∨ (0 ≤ a ∧ a ≤ k)
+
+theorem win_eq_pySlice_none (s : List Char) (a x y : Int)
+    (h : ∀ k : Int, 0 ≤ k → k < s.length → ((x ≤ k ∧ k < y) ↔ inPyFrom s.length a k)) :
+    win s x y = pySlice s (some a) none := by
+  rw [pySlice_eq_win_none]
+  apply win_congr; intro k hk0 hkn
+  rw [adjIdx_le _ _ _ (by omega) hk0 hkn]
+  have := h k hk0 hkn
+  unfold inPyFrom at this
+  omega
+
+theorem nil_eq_pySlice_none (s : List Char) (a : Int)
+    (h : ∀ k : Int, 0 ≤ k → k < s.length → ¬ inPyFrom s.length a k) :
+    [] = pySlice s (some a) none := by
+  rw [← win_zero s]
+  apply win_eq_pySlice_none; intro k hk0 hkn
+  have := h k hk0 hkn
+  constructor
+  · intro h'; omega
+  · intro h'; exact absurd h' this
+
+/-- PostgreSQL, two-argument form -/
+theorem pg_substr2 (s : List Char) (a : Int) :
+    substr2V .pg s (indexVal .pg s.length a) = .ok (.str (pySlice s (some a) none)) := by
+  simp only [substr2V]
+  congr 2
+  have e : sliceNat s (indexVal .pg s.length a - 1).toNat s.length
+         = win s (indexVal .pg s.length a - 1) ((indexVal .pg s.length a - 1).toNat + s.length) := by
+    unfold win; congr 1; omega
+  rw [e]
+  apply win_eq_pySlice_none; intro k hk0 hkn
+  simp only [indexVal_pg, inPyFrom]
+  omega
+
+/-- MySQL, three-argument form (`n` = character count; the byte-counting `LENGTH()` is dealt with by the caller) -/
+theorem mysql_substr3 (s : List Char) (raw : Bool) (a b : Int) (hg : -(s.length : Int) ≤ a) :
+    substr3V .mysql s (indexVal .mysql s.length a) (lenVal .mysql s.length raw a b) = .ok (.str (pySlice s (some a) (some b))) := by
+  obtain ⟨p, hp⟩ : ∃ p, p = indexVal .mysql s.length a := ⟨_, rfl⟩
+  obtain ⟨l, hl⟩ : ∃ l, l = lenVal .mysql s.length raw a b := ⟨_, rfl⟩
+  rw [← hp, ← hl]
+  simp only [lenVal, indexVal_other .mysql (by decide)] at hp hl
+  simp only [substr3V]
+  by_cases h1 : p = 0 ∨ l < 1
+  · rw [if_pos h1]; congr 2
+    apply nil_eq_pySlice; intro k hk0 hkn; unfold inPy
+    cases raw <;> simp at hl <;> omega
+  · rw [if_neg h1]
+    by_cases h2 : p > 0
+    · rw [if_pos h2]; congr 2
+      rw [sliceNat_eq_win _ _ _ (by omega) (by omega)]
+      apply win_eq_pySlice; intro k hk0 hkn; unfold inPy
+      cases raw <;> simp at hl <;> omega
+    · rw [if_neg h2]
+      by_cases h3 : -p > (s.length : Int)
+      · omega
+      · rw [if_neg h3]; congr 2
+        rw [sliceNat_eq_win _ _ _ (by omega) (by omega)]
+        apply win_eq_pySlice; intro k hk0 hkn; unfold inPy
+        cases raw <;> simp at hl <;> omega
+
+theorem mysql_substr2 (s : List Char) (a : Int) (hg : -(s.length : Int) ≤ a) :
+    substr2V .mysql s (indexVal .mysql s.length a) = .ok (.str (pySlice s (some a) none)) := by
+  obtain ⟨p, hp⟩ : ∃ p, p = indexVal .mysql s.length a := ⟨_, rfl⟩
+  rw [← hp]
+  simp only [indexVal_other .mysql (by decide)] at hp
+  simp only [substr2V]
+  have hs : ((s.length : Nat) : Int).toNat = s.length := by omega
+  by_cases h1 : p = 0
+  · omega
+  · rw [if_neg h1]
+    by_cases h2 : p > 0
+    · rw [if_pos h2]; congr 2
+      rw [← hs, sliceNat_eq_win _ _ _ (by omega) (by omega)]
+      apply win_eq_pySlice_none; intro k hk0 hkn; unfold inPyFrom
+      omega
+    · rw [if_neg h2]
+      by_cases h3 : -p > (s.length : Int)
+      · omega
+      · rw [if_neg h3]; congr 2
+        rw [← hs, sliceNat_eq_win _ _ _ (by omega) (by omega)]
+        apply win_eq_pySlice_none; intro k hk0 hkn; unfold inPyFrom
+        omega
+
 end PonyVerif.Model.SqlStr
